@@ -15,7 +15,7 @@ META = dict(
         quick="p in {1,2,3} fully symbolic Real and Int matrices (all 2^(p*p) patterns x all weights); p = 4 Real for topological_ordering/is_dag; constructors p <= 3",
         thorough="as quick plus p = 4 Int, constructors at p = 4, and p = 5 Real restricted to matrices with at most 7 non-zero entries",
     ),
-    outside=["non-square input, NaN/inf entries", "p > 5", "floating-point under/overflow (weights are exact reals)"],
+    outside=["non-square input, NaN/inf entries", "p > 5", "floating-point under/overflow (weights are exact reals)", "fixed-width integer wraparound and float under/overflow inside the implementation (the engine computes with mathematical integers and exact reals: integer-typed inputs are claimed only while all intermediate products / sums fit into int64; narrower integer dtypes such as int8 are outside)"],
     stubs=["numpy -> symnp (pure-Python shim over symbolic scalars)", "numpy.random.default_rng -> contract stub (LGANM constructor only)"],
     assumptions=["z3 is sound; the symnp shim agrees with numpy on the operations used (checked per path by differential validation)"],
 )
